@@ -127,6 +127,15 @@ CHECKS = {
    note="Trusted: TLC, raw constructor/projection glue, canonical forms. Domain: shapes on one layer number pairwise disjoint "
         "(checked as a TLC invariant of the generator), simple polygons, Manhattan paths.",
    tech="TLA+ export-obligation spec; TLC case enumeration; I->S validation of exported structures + S->I round trip"),
+ "C14": dict(cat="model_checking", ref="§6 C14",
+   text="RawProto.tla is the raw<->vlsir.raw field relation as a function (first-seen (layer, purpose) grouping, rectangle as "
+        "lower-left + size, instance rotation, annotations, abstracts) with the ordering obligation ExportOrderOK = ValidOrder of "
+        "DepOrderProps; TLC checks the model's own export order against it and emits library + message for every generated "
+        "library. The crate's to_proto must produce that message (cells in any dependencies-first order, validated by TLC), "
+        "from_proto(to_proto(lib)) must equal lib, and the specification's message must survive proto->raw->proto.",
+   note="Trusted: TLC, raw and proto constructor/projection glue. Abstract port shapes / blockages compare as sets by layer "
+        "(their order is C20's subject). Proto->raw uses the layer table that gives purpose numbers their meaning.",
+   tech="TLA+ field-relation spec + TLC case enumeration; S->I replay in three directions; I->S order validation"),
 }
 
 PENDING = {}
